@@ -3012,8 +3012,17 @@ impl<'source> Parser<'source> {
         let current_indent = self.current_indent();
         let switch_start_span = self.current_span();
 
+        // The indentation of the first arm is taken from the arm's own token: after
+        // consume_until_token_with_context the current token is the last skipped whitespace, comment
+        // or newline token, whose indent is that of the preceding line when the arm starts at column 0.
         let arm_context = match self.consume_until_token_with_context(switch_context) {
-            Some(arm_context) if self.current_indent() > current_indent => arm_context,
+            Some(arm_context)
+                if self
+                    .peek_token_with_context(switch_context)
+                    .is_some_and(|arm| arm.info.indent > current_indent) =>
+            {
+                arm_context
+            }
             _ => return self.consume_token_on_same_line_and_error(ExpectedIndentation::SwitchArm),
         };
 
@@ -3105,8 +3114,15 @@ impl<'source> Parser<'source> {
                 }
             };
 
+        // See consume_switch_expression: the indentation is read from the first arm's own token
         let arm_context = match self.consume_until_token_with_context(match_context) {
-            Some(arm_context) if self.current_indent() > current_indent => arm_context,
+            Some(arm_context)
+                if self
+                    .peek_token_with_context(match_context)
+                    .is_some_and(|arm| arm.info.indent > current_indent) =>
+            {
+                arm_context
+            }
             _ => return self.consume_token_on_same_line_and_error(ExpectedIndentation::MatchArm),
         };
 
